@@ -16,6 +16,8 @@ macro_rules! dispatch {
         match $id {
             "C01" => $f::<props::c01::C01>($($arg),*),
             "C03" => $f::<props::c03::C03>($($arg),*),
+            "C04" => $f::<props::c04::C04>($($arg),*),
+            "C14" => $f::<props::c14::C14>($($arg),*),
             "C20" => $f::<props::c20::C20>($($arg),*),
             other => {
                 eprintln!("unknown property id {other}");
